@@ -43,6 +43,7 @@ def main():
         print(f"{sid:40s} breaks {meta['property']}  detected by {meta['detected_by']}  errors {meta['analysis_error_in']}")
     missed = [s for s, (p, d, e) in summary.items() if not d]
     print("NOT DETECTED:", missed)
+    print("NOT DETECTED BY THEIR OWN PROPERTY:", [s for s, (p, d, e) in summary.items() if p not in d])
 
 if __name__ == "__main__":
     main()
